@@ -239,6 +239,9 @@ def run_scenario(sc, verbose=False, complete_at=None):
     for (node, _i), err in getattr(net, "main_errors", {}).items():
         fails.insert(0, ("run-loop-died", "instance %d: %s escaped _update() while a well-formed message was dispatched: its run() "
                                           "thread ends and nothing that arrives later is applied" % (node, err)))
+    for (node, _i), err in getattr(net, "out_errors", {}).items():
+        fails.insert(0, ("outgoing-loop-died", "instance %d: %s escaped the outgoing iteration: its outgoing thread ends and "
+                                               "nothing is sent any more" % (node, err)))
     fails += wire_checks(net, k)
     # completion: the completing events go to the restarted instance (or, for the reference, to a survivor)
     target = k if complete_at is None else complete_at
